@@ -251,7 +251,9 @@ def collect(prop, tier, fnd, cov, ck):
         cov["tlc_records_validated"] = ms["validated"]
         cov["totality_cases"] = ms["total_cases"]
         cov["rule"] = ("TLC enumerates every type term of depth <= 2 over %d constructors (trait bounds "
-                       "respected) plus a seeded depth-3 sample and fixed tuple/array terms; for each, "
+                       "respected), the systematic depth-3 bulk layer O(W(leaf)) (every container / forwarding wrapper "
+                       "O over every wrapper W of a heap-owning and a heap-free leaf), a seeded depth-3 sample, "
+                       "fixed tuple/array terms and locks held by another thread while measured; for each, "
                        "generated values with random builder histories (spare capacity at every level), "
                        "7 iterator shapes for the four bulk helpers, and 10^6-element runs on a 2 MiB "
                        "stack; non-trivial = distinct (type term, abstract shape) pairs with at least one "
